@@ -438,7 +438,32 @@ func (v *AVsys) freshRuleName(base string) string {
 }
 
 func (v *AVsys) mutate(t *rapid.T, label string) string {
-	switch rapid.IntRange(0, 16).Draw(t, label+"op") {
+	switch rapid.IntRange(0, 18).Draw(t, label+"op") {
+	case 17, 18: // a rule field that names one group is pointed at another existing group
+		gs := sortedKeys(v.Groups)
+		if len(gs) < 2 {
+			return "noop"
+		}
+		var fields []*[]string
+		for _, r := range v.Rules {
+			for _, l := range []*[]string{&r.Src, &r.Dst} {
+				if len(*l) == 1 {
+					if _, ok := v.Groups[(*l)[0]]; ok {
+						fields = append(fields, l)
+					}
+				}
+			}
+		}
+		if len(fields) == 0 {
+			return "noop"
+		}
+		f := fields[rapid.IntRange(0, len(fields)-1).Draw(t, label+"field")]
+		g := rapid.SampledFrom(gs).Draw(t, label+"g")
+		if g == (*f)[0] {
+			return "noop"
+		}
+		*f = []string{g}
+		return "repointGroup"
 	case 0, 1: // add rule
 		i := rapid.IntRange(0, len(v.Rules)).Draw(t, label+"pos")
 		r := genRule(t, v, v.freshRuleName(fmt.Sprintf("r%d", rapid.IntRange(1, 9).Draw(t, label+"rn"))), label+"new")
